@@ -221,6 +221,11 @@ func VerifC04_FinalisingTrafficRouting() {
 
 func VerifC07_FinalisingNotDoneComesWithAWait() { VerifC04_FinalisingTrafficRouting() }
 
+// C05: the clean-up withdraws the routes of *earlier* steps — what the current step configures (nothing, for a plain
+// batch step) does not decide whether the providers are asked to restore (C04.finalisedOnlyWhenAllThreeDone.routes
+// with ctx.currentStepWithoutTraffic, same relation).
+func VerifC05_CleanupWithdrawsRoutesWhateverTheCurrentStep() { VerifC04_FinalisingTrafficRouting() }
+
 // VerifC05_StableServiceSelectorRoundTrip: pinning and un-pinning the stable Service leaves its selector as the user
 // wrote it (only the revision key is added and removed again).
 func VerifC05_StableServiceSelectorRoundTrip() {
